@@ -8,7 +8,7 @@ dst = "/verif/seeded/" + name
 os.makedirs(dst, exist_ok=True)
 files = []
 for f in sorted(os.listdir(src)):
-    if f in ("PROMPT.txt", "PROPERTY.txt"):
+    if f in ("PROMPT.txt", "PROPERTY.txt", "EVAL.txt"):
         continue
     shutil.copy(os.path.join(src, f), os.path.join(dst, f))
     files.append(f)
